@@ -86,27 +86,49 @@ theorem ref_split (cur ref : MPath) :
 /-- the package part and the imported name of `relative`'s answer spell the rest of the path -/
 def targetOf (r : RelImport) : List Name := if r.isModule then r.pkg ++ [r.name] else r.pkg
 
-theorem relative_shape (cur ref : MPath) (cls : Name) (hne : cur ≠ ref) :
+/-- names are nonempty strings (what `"".join` / `split` round-trip needs) -/
+def NoEmptyName (l : MPath) : Prop := ∀ x ∈ l, x ≠ []
+
+theorem noEmpty_of_bool {l : MPath} (h : namesNonempty l = true) : NoEmptyName l := by
+  intro x hx hxe
+  simp only [namesNonempty, List.all_eq_true] at h
+  have := h x hx
+  simp [hxe] at this
+
+theorem joinDot_eq_nil {r : List Name} (h : joinDot r = []) (hn : NoEmptyName r) : r = [] := by
+  cases r with
+  | nil => rfl
+  | cons a t =>
+    cases t with
+    | nil => simp [joinDot] at h; exact absurd h (hn a (by simp))
+    | cons b t' => simp [joinDot] at h
+
+theorem noEmpty_drop {l : MPath} (h : NoEmptyName l) (i : Nat) : NoEmptyName (l.drop i) :=
+  fun x hx => h x (List.mem_of_mem_drop hx)
+
+theorem relative_shape (cur ref : MPath) (cls : Name) (hne : cur ≠ ref) (hn : NoEmptyName ref) :
     ∃ r, relative cur ref cls = some r ∧
       r.dots = (if cur.length - commonLen cur ref = 0 then 1 else cur.length - commonLen cur ref) ∧
       targetOf r = ref.drop (commonLen cur ref) := by
   unfold relative
   rw [if_neg hne]
-  by_cases hr : ref.drop (commonLen cur ref) = []
+  by_cases hr : joinDot (ref.drop (commonLen cur ref)) = []
   · simp only [hr, if_true]
-    exact ⟨_, rfl, rfl, by simp [targetOf]⟩
+    have := joinDot_eq_nil hr (noEmpty_drop hn _)
+    exact ⟨_, rfl, rfl, by simp [targetOf, this]⟩
   · simp only [hr, if_false]
     refine ⟨_, rfl, rfl, ?_⟩
     simp only [targetOf, if_true]
-    exact dropLast_append_getLast _ hr
+    exact dropLast_append_getLast _ (by intro h0; rw [h0] at hr; exact hr rfl)
 
 theorem relative_isModule (cur ref : MPath) (cls : Name) (r : RelImport)
-    (h : relative cur ref cls = some r) (hn : ¬ ref <+: cur) : r.isModule = true := by
+    (h : relative cur ref cls = some r) (hnn : NoEmptyName ref) (hn : ¬ ref <+: cur) : r.isModule = true := by
   unfold relative at h
   split at h
   · simp at h
-  · have hr : ref.drop (commonLen cur ref) ≠ [] := by
+  · have hr : joinDot (ref.drop (commonLen cur ref)) ≠ [] := by
       intro h0
+      have h0 := joinDot_eq_nil h0 (noEmpty_drop hnn _)
       apply hn
       have := ref_split cur ref
       rw [h0, List.append_nil] at this
@@ -119,10 +141,10 @@ the importee is not a prefix of the importer), the import `__change_from_import`
 (`relative`, exact form, the extra dot for a package `__init__`), read by Python's rule from the
 importer's location, designates the importee's module. -/
 theorem emitted_designates (cur ref : MPath) (cls : Name) (isInit ex ib : Bool)
-    (hpre : ¬ cur <+: ref) (hex : (ex || ib) = true → ¬ ref <+: cur) :
+    (hn : NoEmptyName ref) (hpre : ¬ cur <+: ref) (hex : (ex || ib) = true → ¬ ref <+: cur) :
     ∃ r, emitted cur isInit ex ib ref cls = some r ∧ designated cur isInit r = some ref := by
   have hne : cur ≠ ref := fun h => hpre (h ▸ List.prefix_refl _)
-  obtain ⟨r, hr, hdots, htgt⟩ := relative_shape cur ref cls hne
+  obtain ⟨r, hr, hdots, htgt⟩ := relative_shape cur ref cls hne hn
   have hlt := commonLen_lt_of_not_prefix cur ref hpre
   have hsplit := ref_split cur ref
   have hd : r.dots = cur.length - commonLen cur ref := by
@@ -132,7 +154,7 @@ theorem emitted_designates (cur ref : MPath) (cls : Name) (isInit ex ib : Bool)
   obtain ⟨r', hr', hd', ht'⟩ : ∃ r', (if ex || ib then exactImport r cls else r) = r' ∧
       r'.dots = r.dots ∧ targetOf r' = ref.drop (commonLen cur ref) := by
     by_cases hx : (ex || ib) = true
-    · have hm := relative_isModule cur ref cls r hr (hex hx)
+    · have hm := relative_isModule cur ref cls r hr hn (hex hx)
       refine ⟨exactImport r cls, by simp [hx], rfl, ?_⟩
       rw [← htgt]; simp [targetOf, exactImport, hm]
     · exact ⟨r, by simp [hx], rfl, htgt⟩
@@ -155,13 +177,14 @@ theorem emitted_designates (cur ref : MPath) (cls : Name) (isInit ex ib : Bool)
 
 /-- The root `__init__.py` is written with `init = False` although it is a package file; one dot
 then designates the root package itself, so every import from the root resolves. -/
-theorem emitted_designates_root (ref : MPath) (cls : Name) (ex ib : Bool) (hne : ref ≠ []) :
+theorem emitted_designates_root (ref : MPath) (cls : Name) (ex ib : Bool) (hn : NoEmptyName ref)
+    (hne : ref ≠ []) :
     ∃ r, emitted [] false ex ib ref cls = some r ∧ designated [] true r = some ref := by
-  obtain ⟨r, hr, hdots, htgt⟩ := relative_shape [] ref cls (fun h => hne h.symm)
+  obtain ⟨r, hr, hdots, htgt⟩ := relative_shape [] ref cls (fun h => hne h.symm) hn
   have hc : commonLen [] ref = 0 := by simp [commonLen]
   rw [hc] at hdots htgt
   simp only [List.length_nil, Nat.sub_self, if_true, List.drop_zero] at hdots htgt
-  have hm := relative_isModule [] ref cls r hr (by
+  have hm := relative_isModule [] ref cls r hr hn (by
     intro h; exact hne (List.prefix_nil.mp h))
   obtain ⟨r', hr', hd', ht'⟩ : ∃ r', (if ex || ib then exactImport r cls else r) = r' ∧
       r'.dots = 1 ∧ targetOf r' = ref := by
